@@ -333,8 +333,8 @@ Record gst := mkG {
   late_starts : Z;          (* event handler invocations that started while CANCELED was set *)
   origin : option cctx;     (* where the cancel that set CANCELED came from *)
   caw_early : bool;         (* some cancel_and_wait returned while DELETED was not set *)
-  (* the manager thread is inside _dispatch_event_merge_hangup: DU_STATE_NEEDS_DELETE is published, _dispatch_source_merge_evt
-     (which reads du_state again) has not run yet *)
+  (* the manager thread is in the middle of an event delivery: the unote state is updated, ds_pending_data and
+     _dispatch_source_merge_evt (which reads du_state again) are still to come *)
   m_hup : bool
 }.
 
@@ -347,9 +347,10 @@ Inductive act :=
 | GCancel (cx : cctx)              (* dispatch_source_cancel (source.c:982) *)
 | GRelease                         (* last external reference dropped: DQF_RELEASED *)
 | GMergeData                       (* dispatch_source_merge_data *)
-| GEvent (stay_armed : bool)       (* the manager delivers an event for an armed registration *)
-| GHangup                          (* EPOLLHUP, first half (_dispatch_event_merge_hangup): NEEDS_DELETE and the EOF data published *)
-| GHangupMerge                     (* second half: _dispatch_source_merge_evt reads du_state again (source.c:1107) *)
+| GEvent (stay_armed : bool)       (* the manager delivers an event for an armed registration: first half, the unote state *)
+| GHangup                          (* EPOLLHUP, first half (_dispatch_event_merge_hangup): DU_STATE_NEEDS_DELETE published *)
+| GEvMerge                         (* second half of a delivery: ds_pending_data stored, _dispatch_source_merge_evt reads du_state
+                                      again (source.c:1107) *)
 | GInvoke (q : queue)              (* the lane layer starts _dispatch_source_invoke on queue q (takes the drain lock) *)
 | GPhase (o : orc)                 (* the owner runs its next phase *)
 | GCawEnter                        (* cancel_and_wait: first rmw loop *)
@@ -405,16 +406,17 @@ Definition activate_src (k : kind) (o : orc) (s : src) : src * list action :=
   then install k o s
   else (s, []).
 
-(* the manager merges an event into the unote (event_epoll.c:_dispatch_event_merge_fd / _merge_signal, event.c:
-   _dispatch_timers_run).  EV_DISPATCH unotes (read / write): DU_STATE_ARMED cleared, the epoll entry stays disarmed until
-   resumed; signals: nothing changes; timers: the timer stays in the heap or is disarmed *)
-Definition event_src (k : kind) (stay : bool) (s : src) : src :=
-  if k_rearm k then with_du (with_pending s true) (du_wlh s) false (du_nd s) (kreg s) false
-  else if k_timer k then with_du (with_pending s true) (du_wlh s) stay (du_nd s) (kreg s) stay
-  else with_pending s true.
+(* the manager delivers an event in two halves.  First the unote state (event_epoll.c:_dispatch_event_merge_fd /
+   _dispatch_event_merge_hangup, event.c:_dispatch_timers_run): EV_DISPATCH unotes (read / write): DU_STATE_ARMED cleared, the
+   epoll entry stays disarmed until resumed; signals: nothing changes; timers: the timer stays in the heap or is disarmed.
+   Then ds_pending_data and _dispatch_source_merge_evt, which reads du_state again (GEvMerge). *)
+Definition event_du (k : kind) (stay : bool) (s : src) : src :=
+  if k_rearm k then with_du s (du_wlh s) false (du_nd s) (kreg s) false
+  else if k_timer k then with_du s (du_wlh s) stay (du_nd s) (kreg s) stay
+  else s.
 
 (* the manager queue is served by one thread, which also delivers the events: it is neither invoking the source on the manager
-   queue nor in the middle of a hang-up delivery *)
+   queue nor in the middle of a delivery *)
 Definition mgr_free (g : gst) : bool :=
   negb (m_hup g) && match owner g with Some _ => negb (queue_eqb (o_q g) QMgr) | None => true end.
 
@@ -442,20 +444,17 @@ Definition gstep (g : gst) (t : Z) (a : act) : option (gst * list action) :=
   | GRelease => if released (fl s) then None else Some (set_src g (with_fl s (set_released (fl s))) [], [])
   | GMergeData => if released (fl s) then None else Some (set_src g (with_pending s true) [], [])
   | GEvent stay =>
-      if kreg s && karm s && mgr_free g then
-        let s1 := event_src k stay s in
-        (* _dispatch_source_merge_evt (source.c:1108): an event for an unregistered non-timer unote finalizes *)
-        if negb (registered s1) && negb (k_timer k) then let '(s2, acts) := finalize s1 in Some (set_src g s2 acts, acts)
-        else Some (set_src g s1 [], [])
-      else None
+      if kreg s && karm s && negb (k_direct k) && mgr_free g
+      then Some (set_hup (set_src g (event_du k stay s) []) true, []) else None
   | GHangup =>
       if kreg s && registered s && negb (k_timer k) && negb (k_direct k) && mgr_free g
-      then Some (set_hup (set_src g (with_du (with_pending s true) (du_wlh s) false true (kreg s) false) []) true, []) else None
-  | GHangupMerge =>
+      then Some (set_hup (set_src g (with_du s (du_wlh s) false true (kreg s) false) []) true, []) else None
+  | GEvMerge =>
       if m_hup g then
+        let s1 := with_pending s true in
         (* source.c:1108: an event for an unregistered non-timer unote finalizes the source *)
-        if negb (registered s) && negb (k_timer k) then let '(s2, acts) := finalize s in Some (set_hup (set_src g s2 acts) false, acts)
-        else Some (set_hup g false, [])
+        if negb (registered s1) && negb (k_timer k) then let '(s2, acts) := finalize s1 in Some (set_hup (set_src g s2 acts) false, acts)
+        else Some (set_hup (set_src g s1 []) false, [])
       else None
   | GInvoke q =>
       match owner g with
